@@ -7,7 +7,8 @@ proved value clause ctfTRu_sound_partial": an in-class case whose value the exac
 whatever known-finding class its signature falls in) resp. Algorithm 3 (`ctftr cond`: the flag `CtfTr.ctfTRInClass` =
 "inside the decidable hypotheses of the proved value clause ctfTR_sound_partial", tied to the oracle in the same way; the
 derivation of D* from the ancestral components, Algorithm 2 on D* with its own validator, the Fraction of line 4, the returned event, the five final checks;
-crashes of the known findings included, as category `internal`).  Expressions are compared structurally, then by exact
+an exception after validation is category `internal`; the former crash classes of SIMPLIFY and Algorithm 3 are fixed in the
+code, repo c8cad49 / 333fa44 / f335599, and their witnesses are regression cases in corpus/C09).  Expressions are compared structurally, then by exact
 value on the case's model family; events as multisets.  The models of SIMPLIFY, the ctf-factor factorisation and Tian's
 IDENTIFY are the `ctf` and `tian` families'.
 
@@ -33,7 +34,9 @@ Oracle (from the property statement, independent of y0 and of the model; harness
       ||Y_x|| (harness's own ancestor code), no repeated item, a valueless copy of a valued variable absorbed; not judged
       on queries with a self-intervened variable (C19's open simplify-reflexive findings);
   (t') a validator may reject with TypeError / ValueError / NotImplementedError only: any other exception raised by the
-      validator itself is a failure.
+      validator itself is a failure;
+  (f) FAIL although transportable (fifth round; streams multi_domain / fallthrough only): the full domain list is refused
+      although one entry of it alone answers the query with a value the exact oracle accepts.
 """
 from __future__ import annotations
 
@@ -67,6 +70,15 @@ RULE = ("target ADMGs with 2-5 nodes x 1-2 domains (selection diagram = the targ
         "stream (events SIMPLIFY changes: repeated item, valueless copy of a valued variable, causally irrelevant subscript); "
         "an INCONSISTENT-FACTOR stream (Definition 4.1 (i) / (ii) inside one district: FAIL is the only right answer); source "
         "mechanisms at marked variables are redrawn until every kernel row differs from the target's; "
+        "fifth round (gap review): a MULTI-DOMAIN stream (3-4 source domains such that one chosen ctf-factor can be transported "
+        "only from the LAST list entry, population tags in shuffled order pi1..pi6, a repeated record, a target-tagged entry with "
+        "an uncut policy variable; one case in three conditional); a FALL-THROUGH stream (bow X -> Y, X <-> Y into the ctf-factor of "
+        "Y_x: a usable domain in which IDENTIFY fails followed or preceded by a domain with a cut policy on X that succeeds, "
+        "optionally a third unusable domain); a STRUCTURED CONDITIONAL stream (single-world events of 2-4 items over distinct "
+        "variables split into outcomes and conditions, >= 3 conditions or >= 3 outcomes frequent, two-domain constructions); an "
+        "ARGUMENT-FORMS stream (one Variable instead of a one-element list, CFTDomain(population=<Population>), ordering=None); "
+        "the malformed stream damages a random entry of the domain list (also a cyclic DOMAIN graph); thorough tier only: 600 "
+        "six-node graphs (<= 3 bidirected edges, binary variables) with the value oracle raised to 6 nodes; "
         "the worked examples of Correa et al. 2022 and the minimal witnesses of the mutation table as corpus; "
         "plus a malformed stream for every class of the validators (event / outcome / condition outside the graph, order with "
         "a wrong edge or a missing vertex, ...). A case is non-trivial when validation passes, the graph "
@@ -89,16 +101,20 @@ ASSUMPTIONS = [
     "composition axiom for the edges cut at conditioned ancestors, marginalisation of the valueless ancestors and of the "
     "outcomes, independence of the ancestral components without an outcome; J = Q[V(D*)]) for validated queries built by the "
     "public wrapper inside the decidable class CtfTr.ctfTRSoundClass: (a) one world - across ALL ancestral components a vertex "
-    "is named by one counterfactual variable only; (b) every outcome is found in the components under its own name "
-    "(OutcomesFound), two outcomes over one vertex are the same item (an outcome may share its vertex with a condition); (c) no query "
+    "is named by one counterfactual variable only; (b) every outcome is a member of the components under its own name, i.e. is given in "
+    "the minimal form the components store (OutcomesFound; since repo f335599 the code looks an outcome up under that form, "
+    "so inside the class every outcome is its own lookup key: Lean lookup_self), two outcomes over one vertex are the same item "
+    "(an outcome may share its vertex with a condition); (c) no query "
     "variable intervenes on itself or twice on one vertex with different values; (d) no literal subscript of the query names a "
     "vertex of the components unless it names a condition (else one of the two sums of line 4 captures it) - a predicate on "
     "target graph and query only; that the simplified D* (valueless ancestors as free variables) is then in Algorithm 2's "
     "class ctfSoundClass is proved (dstar_in_ctfSoundClass); for every compatible family of "
     "functional SCMs in which the conditions have positive probability and every valuation that reads the query's values and "
     "literal subscripts (Ctf.EventReading on outcomes ++ conditions; exists iff no name receives two value symbols). OPEN "
-    "outside the class: FALSE on the findings cond:value:* (two_values / multi_world / literal_bound / outcome-lookup-miss / "
-    "outcome-also-condition); not decided for multi-world queries that Algorithm 3 happens to answer correctly. The theorem is "
+    "outside the class: FALSE on the findings cond:value:* (two_values / multi_world / literal_bound); not decided for "
+    "multi-world queries that Algorithm 3 happens to answer correctly and for queries with an outcome that is not in minimal "
+    "form (a causally irrelevant subscript: the former findings outcome-lookup-miss / outcome-also-condition are fixed, repo "
+    "f335599, and the exact oracle accepts these answers, but the value theorem is proved for minimal outcomes only). The theorem is "
     "TIED to the oracle on every run: the driver reports CtfTr.ctfTRInClass for every answered conditional case, and an "
     "in-class case on which the exact oracle rejects the value is a disagreement whatever known-finding class its signature "
     "falls in",
@@ -116,29 +132,30 @@ ASSUMPTIONS = [
     "stream dropped_bi, not compared); (b) the dict of the final checks keyed by base name keeps the LAST of two entries of a "
     "vertex named in two worlds, once with and once without a value (CtfTr.finalChecksOrderSensitive; the driver reports it "
     "and then only the validator verdict is compared; PROVED impossible on an answer: ctfTR_simplified_binds_once - a vertex in two worlds makes Algorithm 2 answer FAIL before line 4)",
-    "ctf_no_internal_error: false of the current code on four crash classes (known findings); PROVED for the unconditional "
-    "procedure outside them (ctfTRu_no_internal_error_partial: validated input, no self-intervened variable together with a "
-    "valueless variable, plain event variables as built by the public wrapper, every domain graph keeps the target's "
-    "bidirected edges between non-policy variables and has no bidirected edge at a selection node => answer or FAIL, no "
-    "error); for Algorithm 3 PROVED outside ONE crash class, for domain distributions over plain variables "
-    "(ctfTR_no_internal_error_plain_partial: validated input, plain query variables, DomainsAgree, PopsPlain = the children of "
-    "every domain's PopulationProbability are plain Variables, as in the PP[pi](V) every case of this harness carries, and the "
-    "decidable predicate OutcomesFound = every outcome is found in the ancestral components under its own name; the facts "
-    "about Algorithm 2's expression Q - never Zero(), only graph vertices and variables of the domain distributions, and it "
-    "mentions the vertex of every found outcome - are proved: ctfTR_q_good, qCovers_of_popsPlain). FALSE without OutcomesFound "
-    "(known findings crash:ctfTR-derived-event-rejected / crash:ctfTR-final-check; Lean witness a3Miss; the harness's "
-    "syntactic miss_all / miss_some is exactly the complement of OutcomesFound, cross-checked against the model by "
-    "tools/c09_errsearch.py --sig). The two further classes of ctfTR_no_internal_error_partial are DECIDED: DstarOneWorld "
-    "(D* names each vertex in one world) is not needed for any distributions (ctfTR_no_internal_error_found_partial: a vertex "
-    "in two worlds is merged by the conversion to ctf-factor form or makes Algorithm 2 answer FAIL, so an answer binds every "
-    "vertex once: ctfTR_simplified_binds_once; in particular CtfTr.finalChecksOrderSensitive is false on every answer); "
-    "OutcomeNotCondition (no outcome shares its vertex with a condition) IS needed for arbitrary domain distributions - a "
-    "distribution that lists a counterfactual variable next to its vertex, PP[pi](X, Y, Y_x), makes P*(Y = y | Y = y') raise "
-    "KeyError from check 5 of the output check after both validators accepted the input (Lean witness a3Shared, confirmed on "
-    "the Python by tools/c09_popworld_witness.py; observation recorded in DESIGN.md 9.3 (outside the quantifier of C09), NOT reachable by "
-    "this harness's case format) - and is not needed under PopsPlain; the oracle reports every exception after validation",
+    "ctf_no_internal_error: PROVED for every validated input whose selection diagrams agree with the target graph, for both "
+    "procedures, after three repairs of the code (repo c8cad49: SIMPLIFY drops a None that the merge of Y_y with Y leaves next "
+    "to a value; 333fa44: the unconditional validator rejects a valueless self-intervened variable with the TypeError that "
+    "SIMPLIFY raised after validation; f335599: ctfTR looks its outcomes up in the ancestral components under the minimised "
+    "form the components store). Algorithm 2: ctfTRu_no_internal_error (validated input, plain event variables as built by the "
+    "public wrapper, DomainsAgree = every domain graph keeps the target's bidirected edges between non-policy variables and "
+    "has no bidirected edge at a selection node => answer or FAIL, no error; no class of events excluded: simplify_no_error, "
+    "validateU_selfNone). Algorithm 3: ctfTR_no_internal_error (validated input, plain query variables, DomainsAgree, PopsPlain "
+    "= the children of every domain's PopulationProbability are plain Variables, as in the PP[pi](V) every case of this harness "
+    "carries; no class of queries excluded: every outcome is found under its lookup key, Ctf.ancestralSetRoot_mem / "
+    "ctfTR_outcomes_found; the facts about Algorithm 2's expression Q - never Zero(), only graph vertices and variables of the "
+    "domain distributions, and it mentions the vertex of every outcome - are proved: ctfTR_q_good, qCovers_of_popsPlain); for "
+    "arbitrary domain distributions ctfTR_no_internal_error_anypop_partial needs OutcomeNotCondition (a distribution that lists "
+    "a counterfactual variable next to its vertex, PP[pi](X, Y, Y_x), makes P*(Y = y | Y = y') raise KeyError from check 5 of "
+    "the output check: Lean witness a3Shared, confirmed on the Python by tools/c09_popworld_witness.py; outside the quantifier "
+    "of C09, NOT reachable by this harness's case format). FALSE without DomainsAgree: ONE crash class remains, the open finding "
+    "crash:sigmaTR-district-split (Algorithm 4's ValueError for a domain graph that lacks a bidirected edge of the target; not "
+    "repaired: the validator cannot reject such graphs because the pinned suite uses them - "
+    "test_transport_unconditional_counterfactual_query_line_5, test_transport_conditional_counterfactual_query_7 - and treating "
+    "the domain as unusable would turn an inconsistent input into a silent FAIL). The former crash findings "
+    "(crash:simplify-typeerror, crash:ctfTR-derived-event-rejected, crash:ctfTR-final-check) are `fixed:` lines and regression "
+    "cases in corpus/C09; an exception after validation on any other input is reported by the oracle as a violation",
     "failures on inputs with the syntactic signature of an open finding AND its kind of outcome (wrong value / wrong zero / "
-    "exception class at a named check) are attributed to that finding by class key (17 keys; signature computed on the "
+    "exception class at a named check) are attributed to that finding by class key (12 keys; signature computed on the "
     "minimised query with the harness's own graph code); a different defect that only shows on such inputs with the same "
     "kind of outcome would be masked in the conditional procedure (the unconditional one is also tied to the model)",
     "oracle model class: discrete variables, positive rational parameters, independent root latents per bidirected edge, one "
@@ -147,6 +164,11 @@ ASSUMPTIONS = [
     "different stars) is evaluated under every choice; the check reports only when no choice is right; a name bound by "
     "neither the returned event nor a subscript of the query is read universally (the value must be right for each of its "
     "values); ctfTR's returned event carries base variables only, so the literal subscripts are read from the query",
+    "FAIL is judged for necessity on two streams only (multi_domain, fallthrough, built so that ONE entry of the domain list "
+    "suffices): a refusal of the full list is a failure when the same query is answered from a single entry of the list alone "
+    "with a value the exact oracle accepts (clause (f): Algorithm 4 tries every domain; a procedure that stops at the first "
+    "usable domain only produces more FAILs and was invisible before; measured: the mutant `return district_q_probability` "
+    "inside the loop gives 152 failures of 300 fall-through cases). Elsewhere "
     "FAIL and validation errors are never judged for necessity: a change that only refuses or rejects MORE inputs (selection "
     "nodes tested on all vertices, Zero replaced by FAIL, a larger D*, a stricter validator) keeps C09 as stated and is seen "
     "by the correspondence only (tools/c09_mutants.py lists these as `equiv`); inputs with an invalid topological order are "
@@ -509,8 +531,152 @@ def _incons_case(rng):
             return c
 
 
+# ---- structured streams (fifth round, gap review): domain LISTS, Algorithm 4's fall-through, conditional queries ----------
+
+def _split_cond(rng, ev, case_kw):
+    """turn a single-world event of >= 2 items into outcomes / conditions (same subscripts on both sides: one world, so
+    outside every known-finding class and judged by the value oracle); biased towards >= 3 items on one side"""
+    ev = list(ev)
+    rng.shuffle(ev)
+    if len(ev) >= 4 and rng.random() < 0.6:
+        nc = rng.choice([1, len(ev) - 1])
+    else:
+        nc = rng.randint(1, len(ev) - 1)
+    return _c(case_kw.pop("g"), case_kw.pop("domains"), ev[nc:], ev[:nc], case_kw.pop("seed"), **case_kw)
+
+
+def _tag_domains(rng, doms, allow_target=True):
+    """give the records of a domain list population tags that do NOT ascend with the list index (a shuffled subset of
+    pi1..pi6); sometimes add a target-tagged entry - half of them WITH (uncut) policy variables, P*(V; sigma_X) - and
+    sometimes repeat one record (the same tag twice, same regime)"""
+    tags = rng.sample(range(TARGET + 1, TARGET + 7), len(doms))
+    for d, t in zip(doms, tags):
+        d["pop"] = t
+    return doms
+
+
+def _multi_domain_case(rng):
+    """THREE or four source domains such that one chosen ctf-factor of the query can be transported ONLY from the LAST
+    entry of the list (position >= 2): every earlier entry carries a selection node or a policy on that district.  Tags
+    in shuffled order; optionally a target-tagged entry with an uncut policy variable, and a repeated record.  Single-world
+    events over distinct variables (value oracle judges); one case in three is conditional."""
+    for _try in range(200):
+        g = G.rand_graph(rng, 4, 5, acyclic=True, pd=rng.choice([0.4, 0.6]), pb=rng.choice([0.0, 0.25, 0.4]))
+        nodes = G.all_nodes(g)
+        if len(nodes) < 4 or len(g["bi"]) > 4:
+            continue
+        ev, xs = _single_world_event(rng, g)
+        if len(ev) >= 1:
+            break
+    names, ds = _event_factors(g, ev)
+    ds = sorted(ds, key=sorted)
+    d1 = rng.choice(ds)
+    outside = [v for v in nodes if v not in names]
+    k = rng.choice([3, 3, 4])
+    doms = []
+    for j in range(k):
+        d = {"pop": TARGET + 1 + j, "tmarks": [], "policy": [], "cut": []}
+        if j < k - 1:
+            _mark(rng, d, rng.choice(sorted(d1)))          # blocks the chosen district
+        for v in outside + [u for u in sorted(names) if u not in d1]:
+            if v not in d["tmarks"] + d["policy"] and rng.random() < (0.25 if j < k - 1 else 0.1):
+                _mark(rng, d, v)
+        for key in ("tmarks", "policy", "cut"):
+            d[key] = sorted(d[key])
+        doms.append(d)
+    _tag_domains(rng, doms)
+    r = rng.random()
+    if r < 0.15:                                            # the same record twice (same tag, same regime)
+        j = rng.randrange(len(doms) - 1)
+        doms.insert(rng.randrange(len(doms)), json.loads(json.dumps(doms[j])))
+    elif r < 0.35:                                          # a target-tagged entry, half of them with an uncut policy
+        pol = [rng.choice(sorted(d1))] if rng.random() < 0.5 else ([rng.choice(nodes)] if rng.random() < 0.5 else [])
+        doms.insert(rng.randrange(len(doms)), {"pop": TARGET, "tmarks": [], "policy": sorted(pol), "cut": []})
+    seed = rng.randrange(1 << 30)
+    if len(ev) >= 2 and rng.random() < 0.35:
+        return _split_cond(rng, ev, {"g": g, "domains": doms, "seed": seed, "topo_seed": rng.randrange(1 << 30),
+                                     "stream": "multi_domain"})
+    return _u(g, doms, ev, seed, topo_seed=rng.randrange(1 << 30), stream="multi_domain")
+
+
+def _fallthrough_case(rng):
+    """Algorithm 4 must FALL THROUGH a usable domain in which IDENTIFY fails to a later domain: a bow X -> Y, X <-> Y into
+    the ctf-factor {Y} of Y_x; an unmarked source domain (or the target-tagged entry) is usable but B_i = {X, Y} and
+    IDENTIFY fails; a domain with a CUT policy on X has B_i = {Y} and succeeds.  Random relabelling, optional extra
+    vertices, random list order, optionally a third (unusable: selection node on Y) domain."""
+    n = rng.choice([2, 3, 3, 4])
+    lab = rng.sample(range(5), n)
+    x, y = lab[0], lab[1]
+    di, bi = [[x, y]], [[x, y]]
+    for z in lab[2:]:
+        r = rng.random()
+        if r < 0.35:
+            di.append([z, x])
+        elif r < 0.6:
+            di.append([y, z])
+        elif r < 0.8:
+            di.append([z, y])
+        else:
+            di += [[x, z], [z, y]]
+    g = {"nodes": [], "di": di, "bi": bi}
+    ev = [cv(y, rng.choice("mp"), [(x, rng.choice("mmp"))])]
+    doms = [{"pop": TARGET if rng.random() < 0.3 else TARGET + 1, "tmarks": [], "policy": [], "cut": []},
+            {"pop": TARGET + 2, "tmarks": [], "policy": [x], "cut": [x]}]
+    if rng.random() < 0.5:
+        doms.append({"pop": TARGET + 3, "tmarks": [y], "policy": [], "cut": []})
+    rng.shuffle(doms)
+    if rng.random() < 0.5:
+        _tag_domains(rng, [d for d in doms if d["pop"] != TARGET])
+    return _u(g, doms, ev, rng.randrange(1 << 30), topo_seed=rng.randrange(1 << 30), stream="fallthrough")
+
+
+def _cond_structured_case(rng):
+    """conditional queries that the value oracle judges: a single-world event of 2-4 items over distinct variables of a
+    4-5 node graph (the two_domain construction), split into outcomes and conditions - with >= 3 conditions or >= 3
+    outcomes in every second case that has 4 items"""
+    for _try in range(100):
+        c = _two_domain_case(rng) if rng.random() < 0.6 else _single_world_case(rng)
+        if c["kind"] == "uncond" and len(c["event"]) >= 2 and len({v[1] for v in c["event"]}) == len(c["event"]):
+            break
+    g = c["g"]
+    ev = c["event"]
+    if len(ev) < 4 and rng.random() < 0.6:                  # widen the event inside the same world
+        used = {int(v[1]) for v in ev} | {int(z) for z, _ in ev[0][4]}
+        more = [v for v in G.all_nodes(g) if v not in used]
+        rng.shuffle(more)
+        for v in more[: 4 - len(ev)]:
+            ev.append(cv(v, "m" if rng.random() < 0.65 else "p", [tuple(i) for i in ev[0][4]]))
+    return _split_cond(rng, ev, {"g": g, "domains": c["domains"], "seed": c["eval_seed"],
+                                 "topo_seed": c.get("topo_seed", 1), "stream": "cond_structured"})
+
+
+def _six_node_case(rng):
+    """thorough tier only: 6-node graphs (binary variables, <= 3 bidirected edges forming long districts), single-world
+    events; the value oracle runs up to 6 nodes on this stream"""
+    while True:
+        g = G.rand_graph(rng, 6, 6, acyclic=True, pd=rng.choice([0.35, 0.5]), pb=0.15)
+        nodes = G.all_nodes(g)
+        if len(nodes) == 6 and len(g["bi"]) <= 3:
+            break
+    ev, _xs = _single_world_event(rng, g)
+    doms = _marks_only_domains(rng, nodes) if rng.random() < 0.5 else _rand_domains(rng, nodes)
+    seed = rng.randrange(1 << 30)
+    if len(ev) >= 2 and rng.random() < 0.3:
+        return _split_cond(rng, ev, {"g": g, "domains": doms, "seed": seed, "topo_seed": rng.randrange(1 << 30),
+                                     "stream": "six_node"})
+    return _u(g, doms, ev, seed, topo_seed=rng.randrange(1 << 30), stream="six_node")
+
+
+def _with_forms(rng, c):
+    """argument forms of the public wrappers that the other streams never use: a single Variable instead of a one-element
+    list, CFTDomain(population=<Population>) (the distribution is then built over graph.nodes() in NODE order), and
+    ordering=None (the wrapper takes graph.topological_sort())"""
+    c["forms"] = {"single": rng.random() < 0.5, "population": rng.random() < 0.5, "ordering_none": rng.random() < 0.5}
+    return c
+
+
 MALFORMED = ["empty_event", "all_none", "outside", "no_domains", "bad_topo", "policy_outside", "tnode_in_target",
-             "cyclic_target", "extra_vertex", "star_none_cond", "target_tag_other_graph", "overlap_cond"]
+             "cyclic_target", "extra_vertex", "star_none_cond", "target_tag_other_graph", "overlap_cond", "cyclic_domain"]
 
 
 def _rand_malformed(rng):
@@ -518,6 +684,8 @@ def _rand_malformed(rng):
     kind = rng.choice(MALFORMED)
     nodes = G.all_nodes(c["g"])
     c["malformed"] = kind
+    if c["domains"]:                 # fifth round: the damaged domain is not always domains[0]
+        c["mal_dom"] = rng.randrange(len(c["domains"]))
     key = "event" if c["kind"] == "uncond" else "outcomes"
     if kind == "empty_event":
         c[key] = []
@@ -540,7 +708,8 @@ def _rand_malformed(rng):
     elif kind == "no_domains":
         c["domains"] = []
     elif kind == "policy_outside":
-        c["domains"][0]["policy"] = c["domains"][0]["policy"] + [94]
+        k = rng.randrange(len(c["domains"]))
+        c["domains"][k]["policy"] = c["domains"][k]["policy"] + [94]
     elif kind == "overlap_cond":
         if c["kind"] != "cond":
             c = _c(c["g"], c["domains"], [cv(nodes[0], "m")], [cv(nodes[0], "m")], c["eval_seed"], malformed=kind)
@@ -575,6 +744,17 @@ def cases(rng: random.Random, tier: str):
         out.append(_redundant_case(rng))
     for _ in range(n_sw // 8):
         out.append(_incons_case(rng))
+    for _ in range(n_sw // 6):
+        out.append(_multi_domain_case(rng))
+    for _ in range(n_sw // 10):
+        out.append(_fallthrough_case(rng))
+    for _ in range(n_sw // 6):
+        out.append(_cond_structured_case(rng))
+    for _ in range(n_sw // 15):
+        out.append(_with_forms(rng, rng.choice([_single_world_case, _two_domain_case, _rand_case])(rng)))
+    if tier not in ("quick", "escalated"):
+        for _ in range(600):
+            out.append(_six_node_case(rng))
     for _ in range(n_rand):
         out.append(_rand_case(rng, 5 if rng.random() < 0.3 else 4))
     for _ in range(n_mal):
@@ -641,22 +821,39 @@ def _build(case):
         tg["di"] = tg["di"] + [[tg["di"][0][1], tg["di"][0][0]]]
     target = G.to_nx_mixed(tg)
     domains = []
+    mk = min(case.get("mal_dom", 0), max(len(case["domains"]) - 1, 0))
+    forms = case.get("forms") or {}
     for k, d in enumerate(case["domains"]):
-        gd = domain_graph_dict(g, d, mal if k == 0 else None)
-        if mal == "target_tag_other_graph" and k == 0:
+        gd = domain_graph_dict(g, d, mal if k == mk else None)
+        if mal == "target_tag_other_graph" and k == mk:
             d = dict(d, pop=TARGET, tmarks=[G.all_nodes(g)[0]])
             gd = domain_graph_dict(g, d)
-        graph = G.to_nx_mixed(gd)
-        missing = mal == "bad_topo" and k == 0 and case.get("mal_variant") == "topo_missing"
+        gd_graph = gd
+        if mal == "cyclic_domain" and k == mk and gd["di"]:
+            # the cycle is in the graph only; the order is a valid order of the graph without the back edge (never empty)
+            gd_graph = dict(gd, di=gd["di"] + [[gd["di"][0][1], gd["di"][0][0]]])
+        graph = G.to_nx_mixed(gd_graph)
+        missing = mal == "bad_topo" and k == mk and case.get("mal_variant") == "topo_missing"
         order = [Variable(G.vname(v)) for v in _topo(gd, case.get("topo_seed", 1) + k,
-                                                     bad=(mal == "bad_topo" and k == 0 and not missing))]
+                                                     bad=(mal == "bad_topo" and k == mk and not missing))]
         if missing and len(order) >= 2:     # never an EMPTY order: the public wrapper replaces it by the graph's own sort
             drop = G.vname(gd["di"][0][1]) if gd["di"] else order[-1].name
             order = [v for v in order if v.name != drop]
         regular = [Variable(G.vname(v)) for v in sorted(G.all_nodes(gd)) if v < 200]
-        domains.append(CFTDomain(graph=graph, population=PP[Variable(G.vname(d["pop"]))](regular),
-                                 policy_variables={Variable(G.vname(v)) for v in d["policy"]}, ordering=order))
+        population = PP[Variable(G.vname(d["pop"]))](regular)
+        if forms.get("population"):
+            from y0.dsl import Population
+            population = Population(G.vname(d["pop"]))        # CFTDomain.__post_init__ builds PP[pop](graph nodes)
+        domains.append(CFTDomain(graph=graph, population=population,
+                                 policy_variables={Variable(G.vname(v)) for v in d["policy"]},
+                                 ordering=None if forms.get("ordering_none") else order))
     return target, domains
+
+
+def _arg(vs, case):
+    """the event / outcomes / conditions argument: a list, or - form `single` - the one Variable itself"""
+    vs = [_y0_var(v) for v in vs]
+    return vs[0] if len(vs) == 1 and (case.get("forms") or {}).get("single") else vs
 
 
 # ------------------------------------------------------------------------------------------------ oracle
@@ -864,6 +1061,26 @@ def _in_quantifier(case):
     return "malformed" not in case and not any(d.get("drop_bi") for d in case["domains"])
 
 
+def _fail_check(case):
+    """(f) FAIL although transportable - only on the streams built so that ONE entry of the domain list suffices: when the
+    procedure refuses the query on the full list but answers it from a single entry of the same list alone, with a value
+    the exact oracle accepts, the refusal is wrong (Algorithm 4 tries every domain in turn and Algorithm 2 refuses only
+    when some ctf-factor can be transported from NO domain: an answer from a sub-list is an exact witness)"""
+    for k in range(len(case["domains"])):
+        sub = json.loads(json.dumps(case))
+        sub["domains"] = [sub["domains"][k]]
+        sub["stream"] = "fail_witness"
+        sub.pop("forms", None)
+        try:
+            r = run_python(sub)
+        except Exception:  # noqa: BLE001
+            continue
+        if r["out"][0] == "ok" and r["tags"].get("outcome") == "answer" and r["fail"] is None:
+            return (f"FAIL although the query is transportable: entry {k} of the domain list alone answers it (value accepted "
+                    "by the exact oracle); Algorithm 4 must try every domain")
+    return None
+
+
 def run_python(case):
     logging.getLogger("y0").setLevel(logging.CRITICAL)
     from y0.algorithm.counterfactual_transport import api
@@ -879,7 +1096,10 @@ def run_python(case):
         target, domains = _build(case)
     except Exception as e:  # building the inputs failed (e.g. y0 rejects the graph): not a case
         return {"out": ["skip", type(e).__name__], "fail": None, "nontrivial": False, "tags": dict(tags, outcome="skip")}
-    domain_graphs = [(d.graph, d.ordering) for d in domains]
+    try:
+        domain_graphs = [(d.graph, d.ordering or list(d.graph.topological_sort())) for d in domains]   # as the public wrappers
+    except Exception as e:  # noqa: BLE001  (an empty order over a cyclic graph: not a case)
+        return {"out": ["skip", type(e).__name__], "fail": None, "nontrivial": False, "tags": dict(tags, outcome="skip")}
     domain_data = [(d.policy_variables, d.population) for d in domains]
     # 1. the procedure's own validation
     vclass = None
@@ -904,10 +1124,9 @@ def run_python(case):
     res, exc = None, None
     try:
         if kind == "uncond":
-            res = api.unconditional_cft(event=[_y0_var(v) for v in case["event"]], target_domain_graph=target, domains=domains)
+            res = api.unconditional_cft(event=_arg(case["event"], case), target_domain_graph=target, domains=domains)
         else:
-            res = api.conditional_cft(outcomes=[_y0_var(v) for v in case["outcomes"]],
-                                      conditions=[_y0_var(v) for v in case["conditions"]],
+            res = api.conditional_cft(outcomes=_arg(case["outcomes"], case), conditions=_arg(case["conditions"], case),
                                       target_domain_graph=target, domains=domains)
     except RecursionError as e:
         exc = e
@@ -933,6 +1152,8 @@ def run_python(case):
     elif res is None:
         out = ["fail"]
         tags["outcome"] = "fail"
+        if case.get("stream") in ("multi_domain", "fallthrough") and _in_quantifier(case) and len(nodes) <= 5:
+            fail = _fail_check(case)
     else:
         enc = E.enc_expr(res.expression)
         ret_event = None if res.event is None else _enc_event(res.event)
@@ -940,7 +1161,7 @@ def run_python(case):
         tags["outcome"] = "zero" if isinstance(res.expression, Zero) else "answer"
         queried = case["event"] if kind == "uncond" else case["outcomes"]
         cond = None if kind == "uncond" else case["conditions"]
-        if len(nodes) <= 5 and _in_quantifier(case):
+        if len(nodes) <= (6 if case.get("stream") == "six_node" else 5) and _in_quantifier(case):
             if isinstance(res.expression, Zero):
                 fail = _zero_check(case, queried, cond)
             elif ret_event is None:
@@ -970,7 +1191,7 @@ def request(case):
     if not MODEL_READY:
         return None
     mal = case.get("malformed")
-    if mal in ("tnode_in_target", "cyclic_target", "extra_vertex", "target_tag_other_graph", "bad_topo"):
+    if mal in ("tnode_in_target", "cyclic_target", "extra_vertex", "target_tag_other_graph", "bad_topo", "cyclic_domain"):
         return None    # these are built on the y0 side only (the model receives the same checks through other cases)
     if any(d.get("drop_bi") for d in case["domains"]):
         # whether the run ends in FAIL or in Algorithm 4's ValueError depends on the order in which Python's sets yield
@@ -981,8 +1202,11 @@ def request(case):
     doms = []
     for k, d in enumerate(case["domains"]):
         gd = domain_graph_dict(g, d)
-        doms.append([d["pop"], C.graph_sexp(G.all_nodes(gd), gd["di"], gd["bi"]), _topo(gd, case.get("topo_seed", 1) + k),
-                     d["policy"]])
+        order = _topo(gd, case.get("topo_seed", 1) + k)
+        if (case.get("forms") or {}).get("ordering_none"):
+            # the wrapper takes the graph's own topological sort: the model is given that order
+            order = [G.name_to_int(v.name) for v in G.to_nx_mixed(gd).topological_sort()]
+        doms.append([d["pop"], C.graph_sexp(G.all_nodes(gd), gd["di"], gd["bi"]), order, d["policy"]])
     if case["kind"] == "uncond":
         # (ok <in the class of Props/C09Sound ctfTRu_sound_partial> <answer of ctfTRu>)
         return C.enc(["ctftr", "uncond", gs, doms, case["event"]])
@@ -1285,22 +1509,13 @@ def finding_key(case, res):
     fail = (res or {}).get("fail") or ""
     sig = signature(case)
     kind = case["kind"]
-    miss = sig["miss_all"] or sig["miss_some"]
     cls = None
     if _CRASH in fail:
-        if (kind == "cond" and fail.startswith("ValueError (") and "empty list for the event" in fail
-                and "at _validate_transport_unconditional_counterfactual_query_input:" in fail and sig["miss_all"]):
-            cls = "crash:ctfTR-derived-event-rejected"
-        elif (kind == "cond" and fail.startswith("KeyError (") and "at least one variable in the event" in fail
-              and "at _validate_transport_conditional_counterfactual_query_line_4_output:" in fail and sig["miss_some"]):
-            # check 5 of the output check, with an outcome dropped from a NON-empty D* (miss_all is the empty D*, which
-            # Algorithm 2's validator rejects before line 4; Lean: with OutcomesFound = no miss - Algorithm 3 never
-            # raises, ctfTR_no_internal_error_plain_partial)
-            cls = "crash:ctfTR-final-check"
-        elif (fail.startswith("TypeError (") and "at _any_variables_with_inconsistent_values:" in fail
-              and sig["simplify_risk"]):
-            cls = "crash:simplify-typeerror"
-        elif (fail.startswith("ValueError (") and sig["domain_drops_bi"]
+        # (the crash classes crash:ctfTR-derived-event-rejected / crash:ctfTR-final-check of Algorithm 3 are FIXED, repo
+        # f335599: an exception of ctfTR after validation is attributed to no class any more - Lean ctfTR_no_internal_error)
+        # (crash:simplify-typeerror is FIXED, repo c8cad49 + 333fa44: a TypeError of SIMPLIFY after validation is attributed
+        # to no class any more - Lean simplify_no_error / ctfTRu_no_internal_error)
+        if (fail.startswith("ValueError (") and sig["domain_drops_bi"]
               and ("at transport_district_intervening_on_parents:" in fail
                    or ("at identify_district_variables:" in fail and "is not in list" in fail))):
             # the district of the target is not bidirected-connected in the domain graph (whole graph: Algorithm 4's own
@@ -1316,9 +1531,8 @@ def finding_key(case, res):
             if sig[k] and not sig["inconsistent_factor"]:
                 cls = "value:" + k
                 break
-        if cls is None and kind == "cond" and miss:
-            same = {int(v[1]) for v in case["outcomes"]} & {int(v[1]) for v in case["conditions"]}
-            cls = "value:outcome-also-condition" if same else "value:outcome-lookup-miss"
+        # (value:outcome-lookup-miss / value:outcome-also-condition are FIXED, repo f335599: a wrong value on a query whose
+        # outcome is not in minimal form is attributed to no class of its own any more)
     if cls is not None:
         return f"{kind}:{cls}" if cls.startswith("value") or cls.startswith("zero") else cls
     c = {k: case[k] for k in ("kind", "event", "outcomes", "conditions", "domains", "malformed") if k in case}
@@ -1331,7 +1545,7 @@ MANIFEST = {
     "text": ("Partial. Lean theorems about the model Y0.Model.CtfTr of api.py (validators of ctfTRu / ctfTR as decision "
              "functions, Algorithm 4, Algorithm 2 composed from the `ctf` family's models of SIMPLIFY / counterfactual "
              "ancestors / ancestral components / ctf-factors and the `tian` family's model of IDENTIFY; Algorithm 3 complete: "
-             "derivation of D*, Algorithm 2 on it, line 4 and the five final checks), 62 theorems in Props/C09 + Props/C09Sound (ctfTRu_correct_partial states the three clauses for Algorithm 2 together): THE VALUE CLAUSE FOR ALGORITHM 2 IS PROVED (ctfTRu_sound_partial): whenever ctfTRu answers (x, ev) for a validated input without a self-intervened variable whose simplified event has no valueless item and lies in the decidable class ctfSoundClass, then in every family of functional SCMs compatible with the target graph and the declared domains, at every valuation carrying the returned event's values, x evaluated on the declared domain distributions equals the target probability of the queried event - composed, with no link left as a hypothesis, from C19 (SIMPLIFY preserves the probability; the ctf-factor factorisation, here as a sum of products of c-factors: ctf_factorisation_cfactors), the syntactic link between line 2 of Algorithm 2 and the factorisation, C17 (IDENTIFY, c-factor routines) through sigmaTR_sound_family (Algorithm 4 returns Q*[district] of the TARGET model) and the transportability lemma cfactor_transportability (no selection node into the district and no policy variable in it => same c-factor in source and target), with a concrete two-domain family as non-vacuity witness; ctfTRu_sound_free_partial / ctfTRu_sound_fun cover valueless items read as free variables; THE VALUE CLAUSE FOR ALGORITHM 3 IS PROVED inside the decidable class ctfTRSoundClass (ctfTR_sound_partial: one world across all ancestral components, outcomes found under their own name, no self-intervention, no literal subscript naming a summed vertex - a predicate on graph and query only; every compatible family in which the conditions have positive probability; the returned fraction equals P*(outcomes and conditions)/P*(conditions)) - the two identities of ctfTR_sound_of_parts are discharged by a syntax-free semantic core (CondSem / cond_parts: composition axiom for the edges cut at conditioned ancestors, consistency of the members of the ancestral sets, marginalisation over valueless ancestors and over the outcomes, independence of the ancestral components without an outcome) and J = Q[V(D*)] (dstar_prob_eq_cfactor); ctfTR_zero_sound_partial (Zero only for impossible events, one-world D*) and ctfTR_correct_partial (the three clauses together) complete Algorithm 3; theorem and oracle are tied on every in-class conditional case. the validators reject with the documented classes only and an accepted "
+             "derivation of D*, Algorithm 2 on it, line 4 and the five final checks), 62 theorems in Props/C09 + Props/C09Sound (ctfTRu_correct_partial states the three clauses for Algorithm 2 together): THE VALUE CLAUSE FOR ALGORITHM 2 IS PROVED (ctfTRu_sound_partial): whenever ctfTRu answers (x, ev) for a validated input without a self-intervened variable whose simplified event has no valueless item and lies in the decidable class ctfSoundClass, then in every family of functional SCMs compatible with the target graph and the declared domains, at every valuation carrying the returned event's values, x evaluated on the declared domain distributions equals the target probability of the queried event - composed, with no link left as a hypothesis, from C19 (SIMPLIFY preserves the probability; the ctf-factor factorisation, here as a sum of products of c-factors: ctf_factorisation_cfactors), the syntactic link between line 2 of Algorithm 2 and the factorisation, C17 (IDENTIFY, c-factor routines) through sigmaTR_sound_family (Algorithm 4 returns Q*[district] of the TARGET model) and the transportability lemma cfactor_transportability (no selection node into the district and no policy variable in it => same c-factor in source and target), with a concrete two-domain family as non-vacuity witness; ctfTRu_sound_free_partial / ctfTRu_sound_fun cover valueless items read as free variables; THE VALUE CLAUSE FOR ALGORITHM 3 IS PROVED inside the decidable class ctfTRSoundClass (ctfTR_sound_partial: one world across all ancestral components, outcomes given in the minimal form the components store, no self-intervention, no literal subscript naming a summed vertex - a predicate on graph and query only; every compatible family in which the conditions have positive probability; the returned fraction equals P*(outcomes and conditions)/P*(conditions)) - the two identities of ctfTR_sound_of_parts are discharged by a syntax-free semantic core (CondSem / cond_parts: composition axiom for the edges cut at conditioned ancestors, consistency of the members of the ancestral sets, marginalisation over valueless ancestors and over the outcomes, independence of the ancestral components without an outcome) and J = Q[V(D*)] (dstar_prob_eq_cfactor); ctfTR_zero_sound_partial (Zero only for impossible events, one-world D*) and ctfTR_correct_partial (the three clauses together) complete Algorithm 3; theorem and oracle are tied on every in-class conditional case. the validators reject with the documented classes only and an accepted "
              "input has the stated shape (validateU_error_class, validateC_error_class, validateU_accepts, validateC_strict); "
              "an 'invalid input' outcome is exactly a rejection by the procedure's own validator and an accepted input is "
              "answered, refused, or ends in a non-validation error (ctfTRu_invalid_iff, ctfTRu_trichotomy, "
@@ -1341,16 +1555,17 @@ MANIFEST = {
              "without a self-intervened variable - the event has probability 0 in every compatible functional SCM "
              "(ctfTRu_zero_only_from_simplify, ctfTRu_zero_of_simplify, ctf_zero_sound_partial via C19); the returned event is "
              "SIMPLIFY's output and every ctf-factor is transported from a domain with no policy variable and no selection "
-             "node on its district (ctfTRu_event_is_simplified, sigmaTR_uses_usable_domain, transportFactors_all); outside the "
-             "known crash classes the unconditional procedure never raises (ctfTRu_no_internal_error_partial with "
-             "simplify_no_error_outside_risk, line2_total, sigmaTRDomain_no_error, transportFactors_no_error), the conditional procedure never raises outside its "
-             "crash classes (ctfTR_no_internal_error_partial: outcomes found in the ancestral components under their own name, "
-             "one world in D*, no outcome that is also a condition; with ctfTR_q_good: the expression Q of Algorithm 2 is never "
-             "Zero() and mentions only graph vertices and variables of the domain distributions), and an "
+             "node on its district (ctfTRu_event_is_simplified, sigmaTR_uses_usable_domain, transportFactors_all); NEVER ANOTHER ERROR IS PROVED FOR BOTH PROCEDURES on every validated input whose selection diagrams agree with the target graph, "
+             "after three repairs of the code (repo c8cad49, 333fa44, f335599): ctfTRu_no_internal_error (no class of events excluded: "
+             "simplify_no_error, validateU_selfNone, line2_total, sigmaTRDomain_no_error, transportFactors_no_error) and "
+             "ctfTR_no_internal_error (no class of queries excluded: every outcome is found in the ancestral components under its "
+             "lookup key, Ctf.ancestralSetRoot_mem / ctfTR_outcomes_found; with ctfTR_q_good: the expression Q of Algorithm 2 is never "
+             "Zero() and mentions only graph vertices and variables of the domain distributions; for domain distributions that list "
+             "counterfactual variables ctfTR_no_internal_error_anypop_partial needs OutcomeNotCondition), and an "
              "expression returned by Algorithm 4 denotes Q[district] of the domain's model (sigmaTR_sound, via C17 "
              "cfactor_sound / tian_sound). NOT "
-             "proved: the value clause outside ctfSoundClass (FALSE of the current code on the inputs of the open findings value:*), the value clause of Algorithm 3 outside ctfTRSoundClass (false on the findings cond:value:*; not decided for a literal subscript naming an outcome and multi-world queries the code happens to answer correctly), and the absence of non-validation errors in full "
-             "(ctf_no_internal_error: false on the crash classes of the findings; for Algorithm 3 the two further input classes are decided: DstarOneWorld is not needed (ctfTR_no_internal_error_found_partial), OutcomeNotCondition is not needed for distributions over plain variables (ctfTR_no_internal_error_plain_partial) and needed for arbitrary ones (witness a3Shared; such distributions are outside the quantifier of C09, see DESIGN.md 9.3), so OutcomesFound is the only crash class of Algorithm 3 for declared domains). These clauses are decided on every run by the correspondence (validators exact; "
+             "proved: the value clause outside ctfSoundClass (FALSE of the current code on the inputs of the open findings value:*), the value clause of Algorithm 3 outside ctfTRSoundClass (false on the findings cond:value:*; not decided for a literal subscript naming an outcome and multi-world queries the code happens to answer correctly), and the absence of non-validation errors WITHOUT the hypothesis DomainsAgree "
+             "(false on the one remaining crash class, open finding crash:sigmaTR-district-split: Algorithm 4 raises ValueError when a domain graph lacks a bidirected edge of the target inside a ctf-factor; such domain graphs are outside the quantifier of C09 - a selection diagram over the same nodes keeps the target's edges - but the validator accepts them and the pinned suite uses them). These clauses are decided on every run by the correspondence (validators exact; "
              "Algorithms 2 and 3: verdict, returned event and exact value of the expression) and by the exact functional-SCM "
              "oracle (noise-space enumeration of P*(event), policies as fresh mechanisms): trichotomy, zero-soundness and "
              "value on every answered case."),
